@@ -598,9 +598,7 @@ def rule_progress(ck, prog, S, model):
             continue
         facts = K.facts_at(S, parse, shr[0]) or []
         lenv = shr[0].child(0).strip().get("path")
-        g = any(not isinstance(pol, tuple) and a.k == "BinaryOperator" and a.get("op") == "<" and pol and
-                a.child(0).strip_all_casts().get("path") == rvar and a.child(1).strip_all_casts().get("path") == lenv
-                for a, pol in facts)
+        g = K.holds_rel(facts, rvar, "<", lenv)
         if not g:
             why = "`%s -= %s` is not guarded by %s < %s: the remaining length can become negative" % (lenv, rvar, rvar, lenv)
             continue
